@@ -55,6 +55,18 @@ def selftest():
                 raise InternalError('level alphabet inexact')
 
 
+def fn_api_ok():
+    from mc.lib import api
+    return api.available(classify_mod, 'match_storms',
+                         ('rain', 'head', 'rain_threshold', 'jump_threshold'))
+
+
+def matching_api_ok():
+    from mc.lib import api
+    return api.available(classify_mod, 'find_stable_matching',
+                         ('storm_candidates', 'jump_preferences'))
+
+
 def exc_site(exc):
     tb = traceback.extract_tb(exc.__traceback__)
     frames = [f for f in tb if '/spowtd/' in f.filename] or list(tb)
